@@ -875,7 +875,8 @@ end Examples
   For marks the steps of the bookkeeping are proved: an emitted mark element opens — its mark is appended to the pending
   marks of the open context (`roundtrip_marks_open_partial`); a node inserted inside gets exactly the marks of the
   enclosing mark elements, which become active in order (`roundtrip_marks_insert_partial`); the element closes — its mark
-  is the last active one and is taken off (`roundtrip_marks_close_partial`).  The invariant is `MarkSt`: active marks ++
+  is the last active one and is taken off (`roundtrip_marks_close_partial`); and the three chained for one emitted mark
+  element of the walk (`roundtrip_marks_element_partial`).  The invariant is `MarkSt`: active marks ++
   pending marks of the open context = the marks of the enclosing emitted mark elements, outermost first.
   Missing for the full statement: the forest of mark elements `serialize_fragment` emits for a textblock (keep-open
   prefix of marks) as a structure, and the induction over that forest chaining the three mark steps. -/
@@ -1020,6 +1021,25 @@ theorem roundtrip_marks_close_partial (S : Schema) (st : PState) (base : List No
         .ok { st with nodes := base ++ [{ cx with active := pa.map (·.2), activeT := aT }] } ∧
       MarkSt { cx with active := pa.map (·.2), activeT := aT } t q pa [] :=
   removePendingMark_active S st base cx t q pa mk hn ho hs hf
+
+open PM PM.RoundTrip PM.FromDom in
+/-- **an emitted mark element in the walk**: matched first by a mark rule giving back the mark `m` (which can follow the
+    marks of the enclosing elements), it makes `m` pending, walks its children — if they leave all the marks active (a
+    node was inserted) — and takes `m` off again: the open context is back at the marks of the enclosing elements -/
+theorem roundtrip_marks_element_partial (R : RParser) (w : DomWalk.WState) (base : List NodeCtx) (cx : NodeCtx) (c c2 : List Node)
+    (t : TypeId) (q q2 : Nat) (pa pp : List TMark) (m : Mark) (tag : String) (attrs : List (String × List Char))
+    (r : DomWalk.TagRule) (ra : Option Attrs) (dkids : List DomWalk.DNode) (ptag : String) (prevBr : Bool)
+    (hi : Inv R.P.S w base cx [] c) (hs : MarkSt cx t q pa pp)
+    (hig : DomWalk.ignoreTags.contains tag = false) (hlt : DomWalk.listTags.contains tag = false)
+    (hf : firstRule R tag attrs = some (r, ra)) (hst : straight r = true) (hrn : r.node = none)
+    (hrm : r.mark = some (some m.ty)) (hca : computeAttrs (R.P.S.markType m.ty).attrs (ra.getD []) = .ok m.attrs)
+    (hfo : follows R.P.S ((pa ++ pp).map (·.2)) m)
+    (hkids : ∀ w1 mk, mk.2 = m → Inv R.P.S w1 base { cx with pending := pp ++ [mk] } [] c →
+      ∃ w2 cx2, DomWalk.addAll R.P tag dkids false w1 = .ok w2 ∧ Inv R.P.S w2 base cx2 [] c2 ∧
+        MarkSt cx2 t q2 (pa ++ pp ++ [mk]) [] ∧ cx2.uid = cx.uid) :
+    ∃ w3 cx3, DomWalk.addDom R.P ptag prevBr (.elem tag [] (candsFrom tag attrs R.sel 0) dkids) w = .ok w3 ∧
+      Inv R.P.S w3 base cx3 [] c2 ∧ MarkSt cx3 t q2 (pa ++ pp) [] ∧ cx3.uid = cx.uid :=
+  addDom_markElem R w base cx c c2 t q q2 pa pp m tag attrs r ra dkids ptag prevBr hi hs hig hlt hf hst hrn hrm hca hfo hkids
 
 namespace RoundTripExamples
 open PM.RoundTrip PM.FromDom
